@@ -5,7 +5,7 @@ Only property statements and non-vacuity examples; lemmas are in Proofs/C10.lean
   e        : any finite term of the criteria algebra (Model/C10.lean `Expr`: And/Or/Xor/Not lists, comparisons,
              string predicates, IS [NOT] NULL, kind matchers any-of/all-of, IN, references, id()/toLower()/…,
              parameters, literals null/bool/int/float/string/list)
-  emit     : format.go as it is            emitFixed : the minimally repaired emitter (hooks/C10-fix.patch)
+  emit     : format.go as it is now       emitOld : format.go before the three C10 fixes (4086218, 04efdd9, 7bfe5dc)
   parse    : precedence-climbing parser following Cypher.g4 and building what cypher/frontend builds
   norm     : erase parentheses, flatten same-operator lists, collapse one-element lists, expand kind matchers
 -/
@@ -19,8 +19,11 @@ def RoundTrips (em : Expr → List Tok) (e : Expr) : Prop := (parse (em e)).map 
 /-- the statement of properties.jsonl at full strength: every finite term, the emitter as it is -/
 def C10_full : Prop := ∀ e : Expr, RoundTrips emit e
 
-/-- the same for well-formed terms only (no empty list, integers within ±(2^63-1)) -/
-def BuilderRoundtrip : Prop := ∀ e : Expr, valid e = true → RoundTrips emit e
+/-- the same statement about format.go before the three fixes -/
+def C10_full_old : Prop := ∀ e : Expr, RoundTrips emitOld e
+
+/-- … and restricted to well-formed terms (no empty list, integers within ±(2^63-1)) -/
+def BuilderRoundtripOld : Prop := ∀ e : Expr, valid e = true → RoundTrips emitOld e
 
 /-! ### the comparison is semantic -/
 
@@ -35,23 +38,23 @@ theorem parse_emit_canonical (c : Expr) (h : canonL 0 c = true) : parse (emitE F
   parse_emit_canon c h
 
 /-- the repaired emitter writes exactly the canonical representative of the term … -/
-theorem emitFixed_canonical (e : Expr) (h : valid e = true) :
-    emitFixed e = emitE Fix.canon (canon e) ∧ canonL 0 (canon e) = true ∧ norm (canon e) = norm e :=
+theorem emit_canonical (e : Expr) (h : valid e = true) :
+    emit e = emitE Fix.canon (canon e) ∧ canonL 0 (canon e) = true ∧ norm (canon e) = norm e :=
   ⟨emitFixed_eq e h, canonL_mono _ _ 0 (canon_canonical e h) (Nat.zero_le _), norm_canon e⟩
 
 /-! ### round trip -/
 
-/-- … hence every well-formed term round-trips through the repaired emitter -/
-theorem builder_roundtrip_fixed (e : Expr) (h : valid e = true) : RoundTrips emitFixed e := by
-  obtain ⟨h1, h2, h3⟩ := emitFixed_canonical e h
+/-- … hence every well-formed term round-trips through the emitter as it is -/
+theorem builder_roundtrip (e : Expr) (h : valid e = true) : RoundTrips emit e := by
+  obtain ⟨h1, h2, h3⟩ := emit_canonical e h
   simp [RoundTrips, h1, parse_emit_canonical _ h2, h3]
 
 /-- the current emitter round-trips on the sub-algebra without the three F8 shapes (`safe`, decidable) -/
-theorem builder_roundtrip_partial (e : Expr) (h : valid e = true) (hs : safe e = true) : RoundTrips emit e := by
+theorem builder_roundtrip_old_partial (e : Expr) (h : valid e = true) (hs : safe e = true) : RoundTrips emitOld e := by
   simp only [safe, Bool.and_eq_true, Bool.not_eq_true'] at hs
-  have : emit e = emitFixed e := emit_safe e hs.1.1 hs.1.2 hs.2
+  have : emitOld e = emit e := emit_safe e hs.1.1 hs.1.2 hs.2
   rw [RoundTrips, this]
-  exact builder_roundtrip_fixed e h
+  exact builder_roundtrip e h
 
 /-- without the parenthesis defect alone nothing else is needed for the boolean skeleton: terms built only from
 query.And/Or/Xor/Not over parameterised comparisons are safe iff no Xor sits directly under an And -/
@@ -71,82 +74,98 @@ def wFloat : Expr := .cmp (.prop "n" "x") .eq (.lit (.float ⟨false, 1, []⟩))
 /-- parsed `n:A:B` / cypher.NewKindMatcher(n, {A,B}, true) -/
 def wAllOf : Expr := .kinds "n" ["A", "B"] true
 
-theorem refute_and_over_xor : valid wAndXor = true ∧ ¬ RoundTrips emit wAndXor := by
+theorem refute_and_over_xor_old : valid wAndXor = true ∧ ¬ RoundTrips emitOld wAndXor := by
   refine ⟨rfl, ?_⟩
   intro h
-  have hp : parse (emit wAndXor) = some (.join .xor [.join .and [cx, cy], cz]) := by rfl
+  have hp : parse (emitOld wAndXor) = some (.join .xor [.join .and [cx, cy], cz]) := by rfl
   have hn : norm wAndXor = .join .and [cx, .join .xor [cy, cz]] := by rfl
   have hn' : norm (.join .xor [.join .and [cx, cy], cz]) = .join .xor [.join .and [cx, cy], cz] := by rfl
   simp [RoundTrips, hp, hn, hn'] at h
 
 /-- x = false, y = false, z = true: the model says false, the emitted text says true -/
-theorem and_over_xor_changes_meaning :
-    ∃ v : Val, (parse (emit wAndXor)).map (eval v) = some (some true) ∧ eval v wAndXor = some false := by
+theorem and_over_xor_changes_meaning_old :
+    ∃ v : Val, (parse (emitOld wAndXor)).map (eval v) = some (some true) ∧ eval v wAndXor = some false := by
   refine ⟨⟨fun _ _ r => match r with | .param "p2" => some true | _ => some false, fun _ _ => none, fun _ _ => none⟩, ?_, ?_⟩ <;> rfl
 
-theorem refute_integral_float : valid wFloat = true ∧ ¬ RoundTrips emit wFloat := by
+theorem refute_integral_float_old : valid wFloat = true ∧ ¬ RoundTrips emitOld wFloat := by
   refine ⟨rfl, ?_⟩
   intro h
-  have hp : parse (emit wFloat) = some (.cmp (.prop "n" "x") .eq (.lit (.int 1))) := by rfl
+  have hp : parse (emitOld wFloat) = some (.cmp (.prop "n" "x") .eq (.lit (.int 1))) := by rfl
   have hn : norm wFloat = .cmp (.prop "n" "x") .eq (.lit (.float ⟨false, 1, []⟩)) := by rfl
   have hn' : norm (.cmp (.prop "n" "x") .eq (.lit (.int 1))) = .cmp (.prop "n" "x") .eq (.lit (.int 1)) := by rfl
   simp [RoundTrips, hp, hn, hn'] at h
 
-theorem refute_all_of_kinds : valid wAllOf = true ∧ ¬ RoundTrips emit wAllOf := by
+theorem refute_all_of_kinds_old : valid wAllOf = true ∧ ¬ RoundTrips emitOld wAllOf := by
   refine ⟨rfl, ?_⟩
   intro h
-  have hp : parse (emit wAllOf) = some (.paren (.join .or [.kinds "n" ["A"] true, .kinds "n" ["B"] true])) := by rfl
+  have hp : parse (emitOld wAllOf) = some (.paren (.join .or [.kinds "n" ["A"] true, .kinds "n" ["B"] true])) := by rfl
   have hn : norm wAllOf = .join .and [.kinds "n" ["A"] true, .kinds "n" ["B"] true] := by rfl
   have hn' : norm (.paren (.join .or [.kinds "n" ["A"] true, .kinds "n" ["B"] true])) =
       .join .or [.kinds "n" ["A"] true, .kinds "n" ["B"] true] := by rfl
   simp [RoundTrips, hp, hn, hn'] at h
 
 /-- n has kind A but not B: the model (all-of) says false, the emitted text (`or`) says true -/
-theorem all_of_kinds_changes_meaning :
-    ∃ v : Val, (parse (emit wAllOf)).map (eval v) = some (some true) ∧ eval v wAllOf = some false := by
+theorem all_of_kinds_changes_meaning_old :
+    ∃ v : Val, (parse (emitOld wAllOf)).map (eval v) = some (some true) ∧ eval v wAllOf = some false := by
   refine ⟨⟨fun _ _ _ => none, fun _ _ => none, fun _ k => some (k == "A")⟩, ?_, ?_⟩ <;> rfl
 
-theorem builder_roundtrip_refuted : ¬ BuilderRoundtrip := fun h => refute_and_over_xor.2 (h _ refute_and_over_xor.1)
+theorem builder_roundtrip_old_refuted : ¬ BuilderRoundtripOld := fun h => refute_and_over_xor_old.2 (h _ refute_and_over_xor_old.1)
 
-theorem c10_full_refuted : ¬ C10_full := fun h => refute_and_over_xor.2 (h _)
+theorem c10_full_old_refuted : ¬ C10_full_old := fun h => refute_and_over_xor_old.2 (h _)
 
 /-! shapes reachable through the cypher model constructors only (cypher.NewNegation / NewDisjunction without a
 Parenthetical): same defect class, plus the frontend's collapse of repeated NOTs -/
 
-theorem refute_not_over_and : ¬ RoundTrips emit (.neg (.join .and [cy, cz])) := by
+theorem refute_not_over_and_old : ¬ RoundTrips emitOld (.neg (.join .and [cy, cz])) := by
   intro h
-  have hp : parse (emit (.neg (.join .and [cy, cz]))) = some (.join .and [.neg cy, cz]) := by rfl
+  have hp : parse (emitOld (.neg (.join .and [cy, cz]))) = some (.join .and [.neg cy, cz]) := by rfl
   have hn : norm (.neg (.join .and [cy, cz])) = .neg (.join .and [cy, cz]) := by rfl
   have hn' : norm (.join .and [.neg cy, cz]) = .join .and [.neg cy, cz] := by rfl
   simp [RoundTrips, hp, hn, hn'] at h
 
-theorem refute_not_not : ¬ RoundTrips emit (.neg (.neg cy)) := by
+theorem refute_not_not_old : ¬ RoundTrips emitOld (.neg (.neg cy)) := by
   intro h
-  have hp : parse (emit (.neg (.neg cy))) = some (.neg cy) := by rfl
+  have hp : parse (emitOld (.neg (.neg cy))) = some (.neg cy) := by rfl
   have hn : norm (.neg (.neg cy)) = .neg (.neg cy) := by rfl
   have hn' : norm (.neg cy) = .neg cy := by rfl
   simp [RoundTrips, hp, hn, hn'] at h
   simp [cy] at h
 
-theorem refute_and_over_bare_or : ¬ RoundTrips emit (.join .and [cx, .join .or [cy, cz]]) := by
+theorem refute_and_over_bare_or_old : ¬ RoundTrips emitOld (.join .and [cx, .join .or [cy, cz]]) := by
   intro h
-  have hp : parse (emit (.join .and [cx, .join .or [cy, cz]])) = some (.join .or [.join .and [cx, cy], cz]) := by rfl
+  have hp : parse (emitOld (.join .and [cx, .join .or [cy, cz]])) = some (.join .or [.join .and [cx, cy], cz]) := by rfl
   have hn : norm (.join .and [cx, .join .or [cy, cz]]) = .join .and [cx, .join .or [cy, cz]] := by rfl
   have hn' : norm (.join .or [.join .and [cx, cy], cz]) = .join .or [.join .and [cx, cy], cz] := by rfl
   simp [RoundTrips, hp, hn, hn'] at h
 
 /-- the hypotheses of the positive theorems are necessary: an empty criteria list prints nothing, and
 -2^63 (a legal Go int64) prints digits that ParseInt rejects — neither is repaired by the patch -/
-theorem valid_needed_empty_list : ¬ RoundTrips emitFixed (qNot (qAnd [])) := by
+theorem valid_needed_empty_list : ¬ RoundTrips emit (qNot (qAnd [])) := by
   intro h
-  have hp : parse (emitFixed (qNot (qAnd []))) = none := by rfl
+  have hp : parse (emit (qNot (qAnd []))) = none := by rfl
   simp [RoundTrips, hp] at h
 
 theorem valid_needed_min_int64 :
-    ¬ RoundTrips emitFixed (.cmp (.prop "n" "x") .eq (.lit (.int (-9223372036854775808)))) := by
+    ¬ RoundTrips emit (.cmp (.prop "n" "x") .eq (.lit (.int (-9223372036854775808)))) := by
   intro h
-  have hp : parse (emitFixed (.cmp (.prop "n" "x") .eq (.lit (.int (-9223372036854775808))))) = none := by rfl
+  have hp : parse (emit (.cmp (.prop "n" "x") .eq (.lit (.int (-9223372036854775808))))) = none := by rfl
   simp [RoundTrips, hp] at h
+
+/-- `C10_full` is the statement about the code that exists. What is still false of it is exactly two clauses:
+(1) a term with an empty criteria list / a kind matcher without kinds, (2) an integer literal of magnitude > 2^63-1.
+Every term with neither round-trips; each clause has a witness (neither is touched by the emitter fixes). -/
+theorem c10_full_except (e : Expr) (h1 : listsNonEmpty e = true) (h2 : literalsInRange e = true) : RoundTrips emit e :=
+  builder_roundtrip e (by rw [valid_split, h1, h2]; rfl)
+
+theorem c10_full_fails_only_there (e : Expr) (h : ¬ RoundTrips emit e) : listsNonEmpty e = false ∨ literalsInRange e = false := by
+  cases h1 : listsNonEmpty e <;> cases h2 : literalsInRange e <;> simp
+  exact h (c10_full_except e h1 h2)
+
+theorem c10_full_refuted : ¬ C10_full := fun h => valid_needed_empty_list (h _)
+
+example : listsNonEmpty (qNot (qAnd [])) = false ∧ literalsInRange (qNot (qAnd [])) = true := ⟨rfl, rfl⟩
+example : listsNonEmpty (.cmp (.prop "n" "x") .eq (.lit (.int (-9223372036854775808)))) = true ∧
+    literalsInRange (.cmp (.prop "n" "x") .eq (.lit (.int (-9223372036854775808)))) = false := ⟨rfl, rfl⟩
 
 /-! ### literals -/
 
@@ -156,33 +175,33 @@ theorem operand_roundtrip_fixed (o : Operand) (h : o.ok = true) : parseOperand (
   simp only [List.append_nil] at this
   simp [parseOperand, this]
 
-/-- every literal type through the repaired printer: null, booleans, integers with |i| ≤ 2^63-1, every finite
+/-- every literal type through the printer as it is: null, booleans, integers with |i| ≤ 2^63-1, every finite
 float (canonical decimal, ±0 included), every string token -/
 theorem literal_roundtrip (l : Lit) (h : l.ok = true) : parseOperand (emitLit true l) = some (.lit l) := by
   simpa [emitO] using operand_roundtrip_fixed (.lit l) (by simpa [Operand.ok] using h)
 
-/-- the current printer: the same, except floats with an integral value -/
-theorem literal_roundtrip_current (l : Lit) (h : l.ok = true) (hf : l.integralFloat = false) :
+/-- the printer before 04efdd9: the same, except floats with an integral value -/
+theorem literal_roundtrip_old (l : Lit) (h : l.ok = true) (hf : l.integralFloat = false) :
     parseOperand (emitLit false l) = some (.lit l) := by
   rw [emitLit_safe l hf]; exact literal_roundtrip l h
 
-theorem literal_roundtrip_null : parseOperand (emitLit false .null) = some (.lit .null) := by rfl
-theorem literal_roundtrip_bool (b : Bool) : parseOperand (emitLit false (.bool b)) = some (.lit (.bool b)) :=
-  literal_roundtrip_current _ rfl rfl
-theorem literal_roundtrip_int (i : Int) (h : i.natAbs ≤ maxI) : parseOperand (emitLit false (.int i)) = some (.lit (.int i)) :=
-  literal_roundtrip_current _ (by simpa [Lit.ok] using h) rfl
-theorem literal_roundtrip_float_fixed (d : Dec) (h : stripZ d.frac = d.frac) :
+theorem literal_roundtrip_null : parseOperand (emitLit true .null) = some (.lit .null) := by rfl
+theorem literal_roundtrip_bool (b : Bool) : parseOperand (emitLit true (.bool b)) = some (.lit (.bool b)) :=
+  literal_roundtrip _ rfl
+theorem literal_roundtrip_int (i : Int) (h : i.natAbs ≤ maxI) : parseOperand (emitLit true (.int i)) = some (.lit (.int i)) :=
+  literal_roundtrip _ (by simpa [Lit.ok] using h)
+theorem literal_roundtrip_float (d : Dec) (h : stripZ d.frac = d.frac) :
     parseOperand (emitLit true (.float d)) = some (.lit (.float d)) :=
   literal_roundtrip _ (by simpa [Lit.ok] using h)
-theorem literal_roundtrip_string_token (s : String) : parseOperand (emitLit false (.str s)) = some (.lit (.str s)) :=
-  literal_roundtrip_current _ rfl rfl
+theorem literal_roundtrip_string_token (s : String) : parseOperand (emitLit true (.str s)) = some (.lit (.str s)) :=
+  literal_roundtrip _ rfl
 /-- list literals of any nesting over valid operands -/
 theorem literal_roundtrip_list (xs : List Operand) (h : Operand.oks xs = true) :
     parseOperand (emitO true (.list xs)) = some (.list xs) :=
   operand_roundtrip_fixed _ (by simpa [Operand.ok] using h)
 
 /-- 1.0 is written `1` and read back as the integer 1; -0.0 is written `-0` and read back as the integer 0 -/
-theorem float_integral_becomes_int :
+theorem float_integral_becomes_int_old :
     parseOperand (emitLit false (.float ⟨false, 1, []⟩)) = some (.lit (.int 1)) ∧
     parseOperand (emitLit false (.float ⟨true, 0, []⟩)) = some (.lit (.int 0)) := ⟨rfl, rfl⟩
 
@@ -285,7 +304,7 @@ example : valid (qAnd [cx, qOr [cy, qNot cz], qKind "n" ["A", "B"]]) = true ∧
     safe (qAnd [cx, qOr [cy, qNot cz], qKind "n" ["A", "B"]]) = true := ⟨rfl, rfl⟩
 example : canonL 0 (canon wAndXor) = true := by rfl
 example : (Lit.float ⟨true, 12, [5]⟩).ok = true ∧ (Lit.int (-9223372036854775807)).ok = true := ⟨rfl, rfl⟩
-example : RoundTrips emitFixed wAndXor ∧ RoundTrips emitFixed wFloat ∧ RoundTrips emitFixed wAllOf :=
-  ⟨builder_roundtrip_fixed _ rfl, builder_roundtrip_fixed _ rfl, builder_roundtrip_fixed _ rfl⟩
+example : RoundTrips emit wAndXor ∧ RoundTrips emit wFloat ∧ RoundTrips emit wAllOf :=
+  ⟨builder_roundtrip _ rfl, builder_roundtrip _ rfl, builder_roundtrip _ rfl⟩
 
 end Dawgs.C10.Props
